@@ -155,6 +155,12 @@ def _add(
         return failed
 
     def _error(oid: str, exc: BaseException):
+        if isinstance(exc, PermissionError) and dest.exists(oid):
+            # NOTE: the object has been added (and write-protected) by a
+            # concurrent writer after we had collected the status, so there
+            # is nothing left to transfer.
+            logger.debug("'%s' already exists in the destination, skipping", oid)
+            return
         _log_exception(oid, exc)
         failed.add(HashInfo(src.hash_name, oid))
 
